@@ -11,15 +11,16 @@ import (
 // ---------------- context model ----------------
 
 type CtxObj struct {
-	Obj     *Object
-	Name    string
-	Parent  *RefV // alts of *CtxObj / nil (cancellation parent)
-	Own     *Cell // Bool: cancelled directly
-	DoneCh  *ChanObj
-	ValKey  Value
-	ValVal  Value
-	ValFrom *RefV // where Value lookups continue
-	Root    bool
+	Obj      *Object
+	Name     string
+	Parent   *RefV // alts of *CtxObj / nil (cancellation parent)
+	Own      *Cell // Bool: cancelled directly
+	DoneCh   *ChanObj
+	ValKey   Value
+	ValVal   Value
+	ValFrom  *RefV // where Value lookups continue
+	Root     bool
+	Deadline *Cell // Bool: ended by its deadline (Err is DeadlineExceeded)
 }
 
 type AfterReg struct {
@@ -236,8 +237,10 @@ var timeCounter int
 func (e *Engine) timeNow(c *Config) Value {
 	timeCounter++
 	d := Var(fmt.Sprintf("dt_%d", timeCounter), 64)
-	varBounds[d.name] = [2]int64{0, 3}
+	// the constraint must be built before the bound is registered: the term layer's interval reasoning
+	// would otherwise fold it to true
 	e.constraints = append(e.constraints, Ult(d, BV(4, 64)))
+	varBounds[d.name] = [2]int64{0, 3}
 	cl := e.clockCell()
 	nv := Add(termOf(cl), d)
 	e.foot.write(cl.Obj, c.g)
@@ -288,6 +291,60 @@ func init() {
 		storeCell(x.Own, TS.False, cc.c.g)
 		return &StructV{F: []Value{ctxValue(x), cancelFn(x)}}
 	}}
+	withDeadline := &Model{Plain: func(cc *CallCtx) Value {
+		e := cc.e
+		pr := ctxRefs(cc.args[0])
+		e.raise(cc.c, isNilTerm(pr), "cannot create context from nil parent")
+		x := e.newCtx(cc.c, "deadline", pr, pr)
+		storeCell(x.Own, TS.False, cc.c.g)
+		if x.Deadline == nil {
+			x.Deadline = &Cell{T: types.Typ[types.Bool], Obj: x.Obj, Val: TS.False, Path: ".deadline"}
+		}
+		storeCell(x.Deadline, TS.False, cc.c.g)
+		runner := e.pkg.Func("verifDeadlineRunner")
+		if runner == nil {
+			inconclusive("harness support function verifDeadlineRunner missing")
+		}
+		id := -1
+		for i, y := range e.ctxs {
+			if y == x {
+				id = i
+			}
+		}
+		e.spawn(cc.c, runner, []Value{BV(uint64(id), 64)}, nil)
+		return &StructV{F: []Value{ctxValue(x), cancelFn(x)}}
+	}}
+	models["context.WithTimeout"] = withDeadline
+	models["context.WithDeadline"] = withDeadline
+	extraIntrinsics["verifFireDeadline"] = func(cc *CallCtx) bool {
+		id := cc.args[0].(*Term)
+		x := cc.e.ctxs[id.val]
+		return cc.e.visibleOp(cc.c, cc.rest, func(int) *Term { return TS.True }, func(int) bool {
+			e := cc.e
+			g := cc.c.g
+			live := Not(e.ctxCancelled(x))
+			e.foot.write(x.Obj, g)
+			storeCell(x.Deadline, TS.True, And(g, live))
+			storeCell(x.Own, TS.True, And(g, live))
+			for _, r := range e.afters {
+				st := termOf(r.State)
+				var in *Term = TS.False
+				for _, a := range r.Ctx.Alts {
+					if y, ok := a.R.(*CtxObj); ok {
+						in = Or(in, And(a.G, e.descOf(y, x)))
+					}
+				}
+				fire := And(g, live, in, Eq(st, BV(0, 8)))
+				if fire.IsFalse() {
+					continue
+				}
+				e.foot.write(r.Obj, fire)
+				storeCell(r.State, BV(1, 8), fire)
+			}
+			cc.finish(nil)
+			return true
+		})
+	}
 	models["context.WithoutCancel"] = &Model{Plain: func(cc *CallCtx) Value {
 		pr := ctxRefs(cc.args[0])
 		cc.e.raise(cc.c, isNilTerm(pr), "cannot create context from nil parent")
@@ -343,7 +400,7 @@ func init() {
 		Exec: func(cc *CallCtx, ph int) (Value, bool) {
 			x := ctxOf(cc)
 			cc.e.footCtx(x, cc.c.g)
-			return iteValue(cc.e.ctxCancelled(x), cc.e.canceledErr(), nilRef()), true
+			return cc.e.ctxErr(x), true
 		}}
 	models["(verifCtx).Done"] = &Model{Plain: func(cc *CallCtx) Value {
 		x := ctxOf(cc)
@@ -414,7 +471,7 @@ func init() {
 		if cd == nil {
 			return false
 		}
-		w := termOf(condWaiters(cd))
+		w := Sub(termOf(condWaiters(cd)), termOf(condNotify(cd)))
 		cc.e.foot.read(cd.Obj, cc.c.g)
 		cc.finish(Ite(Eq(w, BV(0, 32)), BV(0, 64), BV(1, 64)))
 		return true
@@ -512,6 +569,11 @@ func init() {
 		cc.e.lastRandR = iteValue(cc.c.g, r, cc.e.lastRandR).(*Term)
 		return r
 	}}
+	models["errors.Is"] = &Model{Plain: func(cc *CallCtx) Value {
+		// errors in scope do not wrap (fatalError is unwrapped by the library itself): identity comparison,
+		// and nil target only matches nil
+		return eqValue(cc.args[0], cc.args[1])
+	}}
 	models["fmt.Errorf"] = &Model{Plain: func(cc *CallCtx) Value { return cc.e.freshErr(cc.c, "fmt.Errorf") }}
 	models["fmt.Sprintf"] = &Model{Plain: func(cc *CallCtx) Value { return symStr("sprintf") }}
 	models["fmt.Sprint"] = models["fmt.Sprintf"]
@@ -558,4 +620,25 @@ func restrictTerm(t *Term, g *Term) *Term {
 		}
 	}
 	return t
+}
+
+// ctxErr: the error a context reports: its own (DeadlineExceeded if it ended by deadline, else Canceled), or
+// the error of the nearest cancelled ancestor.
+func (e *Engine) ctxErr(x *CtxObj) Value {
+	var res Value = nilRef()
+	if x.Parent != nil {
+		for _, a := range x.Parent.Alts {
+			if p, ok := a.R.(*CtxObj); ok {
+				res = iteValue(a.G, e.ctxErr(p), res)
+			}
+		}
+	}
+	own := x.Own.Val.(*Term)
+	var ownErr Value = e.canceledErr()
+	if x.Deadline != nil {
+		p := e.prog.ImportedPackage("context")
+		de := loadCell(e.globalCell(p.Var("DeadlineExceeded")))
+		ownErr = iteValue(termOf(x.Deadline), de, ownErr)
+	}
+	return iteValue(own, ownErr, res)
 }
